@@ -201,4 +201,279 @@ theorem digits_undigits (radixes ds : List Nat) (hl : ds.length = radixes.length
     (hd : ∀ i, i < ds.length → ds.getD i 0 < radixes.getD i 0) :
     digits radixes (undigits radixes ds) = ds := digits_undigits' radixes ds ⟨hl, hd⟩
 
+/-! ### `setDigits` -/
+@[simp] theorem setDigits_nil_loc (ds sub : List Nat) : setDigits ds [] sub = ds := by simp [setDigits]
+@[simp] theorem setDigits_nil_sub (ds loc : List Nat) : setDigits ds loc [] = ds := by simp [setDigits]
+
+theorem setDigits_cons (ds : List Nat) (l s : Nat) (loc sub : List Nat) :
+    setDigits ds (l :: loc) (s :: sub) = setDigits (ds.set l s) loc sub := by
+  simp [setDigits]
+
+theorem setDigits_length (ds loc sub : List Nat) : (setDigits ds loc sub).length = ds.length := by
+  induction loc generalizing ds sub with
+  | nil => simp
+  | cons l loc ih =>
+    cases sub with
+    | nil => simp
+    | cons s sub => rw [setDigits_cons, ih, List.length_set]
+
+theorem getD_set_ne (ds : List Nat) (l s q : Nat) (h : l ≠ q) : (ds.set l s).getD q 0 = ds.getD q 0 := by
+  simp [List.getD_eq_getElem?_getD, h]
+
+theorem getD_set_eq (ds : List Nat) (l s : Nat) (h : l < ds.length) : (ds.set l s).getD l 0 = s := by
+  simp [List.getD_eq_getElem?_getD, h]
+
+/-- positions outside `loc` are untouched -/
+theorem setDigits_getD_of_not_mem (ds loc sub : List Nat) (q : Nat) (hq : q ∉ loc) :
+    (setDigits ds loc sub).getD q 0 = ds.getD q 0 := by
+  induction loc generalizing ds sub with
+  | nil => simp
+  | cons l loc ih =>
+    cases sub with
+    | nil => simp
+    | cons s sub =>
+      rw [List.mem_cons, not_or] at hq
+      rw [setDigits_cons, ih _ _ hq.2, getD_set_ne _ _ _ _ (fun h => hq.1 h.symm)]
+
+/-- position `loc[k]` receives `sub[k]` (duplicate-free `loc`, in range) -/
+theorem setDigits_getD_loc (ds loc sub : List Nat) (hnd : loc.Nodup) (k : Nat) (hk : k < loc.length)
+    (hks : k < sub.length) (hlt : loc.getD k 0 < ds.length) :
+    (setDigits ds loc sub).getD (loc.getD k 0) 0 = sub.getD k 0 := by
+  induction loc generalizing ds sub k with
+  | nil => simp at hk
+  | cons l loc ih =>
+    cases sub with
+    | nil => simp at hks
+    | cons s sub =>
+      rw [List.nodup_cons] at hnd
+      rw [setDigits_cons]
+      cases k with
+      | zero =>
+        simp only [List.getD_cons_zero] at hlt ⊢
+        rw [setDigits_getD_of_not_mem _ _ _ _ hnd.1, getD_set_eq _ _ _ hlt]
+      | succ k =>
+        simp only [List.getD_cons_succ] at hlt ⊢
+        exact ih _ _ hnd.2 k (by simpa using hk) (by simpa using hks) (by rwa [List.length_set])
+
+/-- writing back the digits that are already there changes nothing; no hypothesis -/
+theorem setDigits_self (ds loc : List Nat) : setDigits ds loc (loc.map (fun q => ds.getD q 0)) = ds := by
+  induction loc with
+  | nil => simp
+  | cons l loc ih =>
+    rw [List.map_cons, setDigits_cons]
+    have : ds.set l (ds.getD l 0) = ds := by
+      apply List.ext_getElem?
+      intro j
+      rw [List.getElem?_set]
+      split
+      · rename_i h
+        subst h
+        split
+        · rename_i h2
+          simp [List.getD_eq_getElem?_getD, List.getElem?_eq_getElem h2]
+        · rename_i h2
+          simp [List.getElem?_eq_none (Nat.le_of_not_lt h2)]
+      · rfl
+    rw [this, ih]
+
+theorem getD_map_loc (loc : List Nat) (f : Nat → Nat) (k : Nat) (hk : k < loc.length) :
+    (loc.map f).getD k 0 = f (loc.getD k 0) := by
+  simp [List.getD_eq_getElem?_getD, List.getElem?_eq_getElem hk]
+
+theorem getD_default_irrel (l : List Nat) (q a b : Nat) (hq : q < l.length) : l.getD q a = l.getD q b := by
+  simp [List.getD_eq_getElem?_getD, List.getElem?_eq_getElem hq]
+
+theorem mem_loc_iff_getD (loc : List Nat) (q : Nat) : q ∈ loc ↔ ∃ k, k < loc.length ∧ loc.getD k 0 = q := by
+  rw [List.mem_iff_getElem]
+  constructor
+  · rintro ⟨k, hk, h⟩
+    exact ⟨k, hk, by simp [List.getD_eq_getElem?_getD, List.getElem?_eq_getElem hk, h]⟩
+  · rintro ⟨k, hk, h⟩
+    refine ⟨k, hk, ?_⟩
+    simpa [List.getD_eq_getElem?_getD, List.getElem?_eq_getElem hk] using h
+
+theorem getD_mem_loc (loc : List Nat) (k : Nat) (hk : k < loc.length) : loc.getD k 0 ∈ loc :=
+  (mem_loc_iff_getD loc _).2 ⟨k, hk, rfl⟩
+
+/-- the radixes of the gate's qudits -/
+abbrev subRadixes (loc radixes : List Nat) : List Nat := loc.map (fun q => radixes.getD q 1)
+
+/-- reading the digits at `loc` gives a valid index of the gate -/
+theorem digitsOK_read (loc radixes ds : List Nat) (hlt : ∀ q ∈ loc, q < radixes.length)
+    (hds : DigitsOK radixes ds) :
+    DigitsOK (subRadixes loc radixes) (loc.map (fun q => ds.getD q 0)) := by
+  refine ⟨by simp, fun i hi => ?_⟩
+  have hi' : i < loc.length := by simpa using hi
+  have hq := hlt _ (getD_mem_loc loc i hi')
+  rw [getD_map_loc _ _ _ hi', getD_map_loc _ _ _ hi', getD_default_irrel radixes _ 1 0 hq]
+  exact hds.2 _ (by rw [hds.1]; exact hq)
+
+/-- writing a valid gate index at `loc` into a valid index gives a valid index -/
+theorem digitsOK_setDigits (loc radixes ds sub : List Nat) (hnd : loc.Nodup)
+    (hlt : ∀ q ∈ loc, q < radixes.length) (hds : DigitsOK radixes ds)
+    (hsub : DigitsOK (subRadixes loc radixes) sub) :
+    DigitsOK radixes (setDigits ds loc sub) := by
+  refine ⟨by rw [setDigits_length, hds.1], fun q hq => ?_⟩
+  rw [setDigits_length] at hq
+  have hsl : sub.length = loc.length := by simpa using hsub.1
+  by_cases hm : q ∈ loc
+  · obtain ⟨k, hk, rfl⟩ := (mem_loc_iff_getD loc q).1 hm
+    rw [setDigits_getD_loc ds loc sub hnd k hk (by omega) hq]
+    have := hsub.2 k (by omega)
+    rwa [getD_map_loc _ _ _ hk, getD_default_irrel radixes _ 1 0 (hlt _ hm)] at this
+  · rw [setDigits_getD_of_not_mem _ _ _ _ hm]
+    exact hds.2 q hq
+
+/-- reading back what was written -/
+theorem read_setDigits (loc ds sub : List Nat) (hnd : loc.Nodup) (hlt : ∀ q ∈ loc, q < ds.length)
+    (hsl : sub.length = loc.length) :
+    loc.map (fun q => (setDigits ds loc sub).getD q 0) = sub := by
+  apply List.ext_getElem?
+  intro k
+  by_cases hk : k < loc.length
+  · have h1 := setDigits_getD_loc ds loc sub hnd k hk (by omega) (hlt _ (getD_mem_loc loc k hk))
+    rw [List.getElem?_map, List.getElem?_eq_getElem hk, Option.map_some,
+      List.getElem?_eq_getElem (by omega : k < sub.length)]
+    have h2 : loc.getD k 0 = loc[k] := by
+      simp [List.getD_eq_getElem?_getD, List.getElem?_eq_getElem hk]
+    have h3 : sub.getD k 0 = sub[k]'(by omega) := by
+      simp [List.getD_eq_getElem?_getD, List.getElem?_eq_getElem (by omega : k < sub.length)]
+    rw [h2, h3] at h1
+    rw [h1]
+  · rw [List.getElem?_eq_none (by simp; omega), List.getElem?_eq_none (by omega)]
+
+/-- a second write at the same location overwrites the first -/
+theorem setDigits_setDigits (loc ds s1 s2 : List Nat) (hnd : loc.Nodup)
+    (hlt : ∀ q ∈ loc, q < ds.length) (h2 : s2.length = loc.length) :
+    setDigits (setDigits ds loc s1) loc s2 = setDigits ds loc s2 := by
+  apply List.ext_getElem?
+  intro q
+  have key : (setDigits (setDigits ds loc s1) loc s2).getD q 0 = (setDigits ds loc s2).getD q 0 := by
+    by_cases hm : q ∈ loc
+    · obtain ⟨k, hk, rfl⟩ := (mem_loc_iff_getD loc q).1 hm
+      rw [setDigits_getD_loc _ loc s2 hnd k hk (by omega) (by rw [setDigits_length]; exact hlt _ hm),
+        setDigits_getD_loc _ loc s2 hnd k hk (by omega) (hlt _ hm)]
+    · rw [setDigits_getD_of_not_mem _ _ _ _ hm, setDigits_getD_of_not_mem _ _ _ _ hm,
+        setDigits_getD_of_not_mem _ _ _ _ hm]
+  by_cases hq : q < ds.length
+  · have l1 : q < (setDigits (setDigits ds loc s1) loc s2).length := by
+      rw [setDigits_length, setDigits_length]; exact hq
+    have l2 : q < (setDigits ds loc s2).length := by rw [setDigits_length]; exact hq
+    rw [List.getD_eq_getElem?_getD, List.getD_eq_getElem?_getD, List.getElem?_eq_getElem l1,
+      List.getElem?_eq_getElem l2] at key
+    rw [List.getElem?_eq_getElem l1, List.getElem?_eq_getElem l2]
+    simpa using key
+  · rw [List.getElem?_eq_none (by rw [setDigits_length, setDigits_length]; omega),
+      List.getElem?_eq_none (by rw [setDigits_length]; omega)]
+
+/-! ### (2) `embed` -/
+theorem subRadixes_pos (loc radixes : List Nat) (hr : ∀ r ∈ radixes, 0 < r) :
+    ∀ r ∈ subRadixes loc radixes, 0 < r := by
+  intro r hrm
+  obtain ⟨q, _, rfl⟩ := List.mem_map.1 hrm
+  rw [List.getD_eq_getElem?_getD]
+  by_cases hq : q < radixes.length
+  · rw [List.getElem?_eq_getElem hq, Option.getD_some]
+    exact hr _ (List.getElem_mem _)
+  · rw [List.getElem?_eq_none (by omega)]
+    simp
+
+/-- the defining formula of `embed`, entry form -/
+theorem embed_at_eq (m : Mono) (loc radixes : List Nat) (col : Nat) (hcol : col < dim radixes) :
+    (embed m loc radixes).at col =
+      (undigits radixes (setDigits (digits radixes col) loc
+          (digits (subRadixes loc radixes)
+            (m.at (undigits (subRadixes loc radixes)
+              (loc.map (fun q => (digits radixes col).getD q 0)))).1)),
+        (m.at (undigits (subRadixes loc radixes)
+              (loc.map (fun q => (digits radixes col).getD q 0)))).2) := by
+  unfold embed
+  simp only
+  rw [at_map_range _ _ _ hcol]
+
+/-- the gate's column index read off the digits of a valid column is a valid gate column -/
+theorem embed_sc_lt (loc radixes : List Nat) (hlt : ∀ q ∈ loc, q < radixes.length)
+    (col : Nat) (hcol : col < dim radixes) :
+    undigits (subRadixes loc radixes) (loc.map (fun q => (digits radixes col).getD q 0)) <
+      dim (subRadixes loc radixes) :=
+  undigits_lt' _ _ (digitsOK_read loc radixes _ hlt
+    (digitsOK_digits radixes col (pos_of_dim_pos radixes (Nat.lt_of_le_of_lt (Nat.zero_le _) hcol))))
+
+/-- the digit string of the row produced by `embed` -/
+theorem embed_row_digits (m : Mono) (loc radixes : List Nat) (hloc : loc.Nodup)
+    (hlt : ∀ q ∈ loc, q < radixes.length) (col : Nat) (hcol : col < dim radixes) :
+    ((embed m loc radixes).at col).1 < dim radixes ∧
+    digits radixes ((embed m loc radixes).at col).1 =
+      setDigits (digits radixes col) loc
+        (digits (subRadixes loc radixes)
+          (m.at (undigits (subRadixes loc radixes)
+            (loc.map (fun q => (digits radixes col).getD q 0)))).1) := by
+  have hr := pos_of_dim_pos radixes (Nat.lt_of_le_of_lt (Nat.zero_le _) hcol)
+  have hok := digitsOK_setDigits loc radixes _ _ hloc hlt (digitsOK_digits radixes col hr)
+    (digitsOK_digits (subRadixes loc radixes)
+      (m.at (undigits (subRadixes loc radixes)
+        (loc.map (fun q => (digits radixes col).getD q 0)))).1 (subRadixes_pos loc radixes hr))
+  rw [embed_at_eq m loc radixes col hcol]
+  exact ⟨undigits_lt' _ _ hok, digits_undigits' _ _ hok⟩
+
+/-- **`embed` on the digit string** (no hypothesis on the gate `m`): the phase is the gate's phase,
+the row is a valid index, its digits at `loc` are the digits of the gate's row, the other digits are
+those of the column.  `hcol` implies that all radixes are positive. -/
+theorem embed_at_digits (m : Mono) (loc radixes : List Nat) (hloc : loc.Nodup)
+    (hlt : ∀ q ∈ loc, q < radixes.length) (col : Nat) (hcol : col < dim radixes) :
+    let subR := loc.map (radixes.getD · 1)
+    let ds := digits radixes col
+    let sc := undigits subR (loc.map (ds.getD · 0))
+    let e := m.at sc
+    let out := (embed m loc radixes).at col
+    out.2 = e.2 ∧ out.1 < dim radixes ∧
+    (∀ k, k < loc.length →
+      (digits radixes out.1).getD (loc.getD k 0) 0 = (digits subR e.1).getD k 0) ∧
+    (∀ q, q < radixes.length → q ∉ loc → (digits radixes out.1).getD q 0 = ds.getD q 0) := by
+  intro subR ds sc e out
+  obtain ⟨h1, h2⟩ := embed_row_digits m loc radixes hloc hlt col hcol
+  refine ⟨by simp only [out]; rw [embed_at_eq m loc radixes col hcol], h1, fun k hk => ?_, fun q _ hq => ?_⟩
+  · simp only [out]
+    rw [h2]
+    exact setDigits_getD_loc _ loc _ hloc k hk (by rw [digits_length]; simpa using hk)
+      (by rw [digits_length]; exact hlt _ (getD_mem_loc loc k hk))
+  · simp only [out]
+    rw [h2]
+    exact setDigits_getD_of_not_mem _ _ _ _ hq
+
+/-- **Main theorem for `apply_left`/`apply_right`.**  For a gate `m` of the right dimension with rows in
+range: on the digit string of the column, `embed m loc radixes` reads the gate's column index `sc` at
+`loc` (`sc` is a column of `m`), applies `m`, writes the digits of the gate's row back at `loc` and
+leaves all other digits alone; reading the row at `loc` gives exactly the gate's row. -/
+theorem embed_at (m : Mono) (loc radixes : List Nat) (hloc : loc.Nodup)
+    (hlt : ∀ q ∈ loc, q < radixes.length)
+    (hm : m.length = dim (loc.map (radixes.getD · 1)))
+    (hrow : ∀ e ∈ m, e.1 < m.length)
+    (col : Nat) (hcol : col < dim radixes) :
+    let subR := loc.map (radixes.getD · 1)
+    let ds := digits radixes col
+    let sc := undigits subR (loc.map (ds.getD · 0))
+    let e := m.at sc
+    let out := (embed m loc radixes).at col
+    sc < m.length ∧ out.2 = e.2 ∧ out.1 < dim radixes ∧
+    (∀ k, k < loc.length →
+      (digits radixes out.1).getD (loc.getD k 0) 0 = (digits subR e.1).getD k 0) ∧
+    (∀ q, q < radixes.length → q ∉ loc → (digits radixes out.1).getD q 0 = ds.getD q 0) ∧
+    undigits subR (loc.map ((digits radixes out.1).getD · 0)) = e.1 := by
+  intro subR ds sc e out
+  have hsc : sc < m.length := by rw [hm]; exact embed_sc_lt loc radixes hlt col hcol
+  obtain ⟨h1, h2, h3, h4⟩ := embed_at_digits m loc radixes hloc hlt col hcol
+  refine ⟨hsc, h1, h2, h3, h4, ?_⟩
+  have he : e.1 < dim subR := by
+    rw [← hm]
+    apply hrow
+    simp only [e]
+    rw [at_eq_getElem m sc hsc]
+    exact List.getElem_mem _
+  obtain ⟨_, h5⟩ := embed_row_digits m loc radixes hloc hlt col hcol
+  simp only [out]
+  rw [h5, read_setDigits loc _ _ hloc (by intro q hq; rw [digits_length]; exact hlt q hq)
+    (by rw [digits_length]; simp)]
+  exact undigits_digits subR e.1 he
+
 end BqVerif.Kron
